@@ -247,6 +247,10 @@ def make_tasks_factory(scn, r, root, mods, log, counter):
         rec['exit_clock'] = sim.clock
         out = run['outcome'][i]
         if out == 'raise':
+            if exec_id % 3 == 0:
+                # an exception that carries what it was working on (an open
+                # handle: something that cannot be pickled)
+                raise ProbeError('scripted failure', sched.HANDLE)
             raise ProbeError('scripted failure')
         # like the real tasks: <output-root of the configuration>/<name>,
         # through pathlib
